@@ -121,19 +121,20 @@ func (r *Ring[T]) At(n int) *Ring[T] {
 		return nil
 	}
 
-	next := (*Ring[T]).Next
-	if n < 0 {
-		n = -n
-		next = (*Ring[T]).Prev
-	}
-
+	// Step toward zero from either side rather than negating n, which would
+	// overflow for the most negative int.
 	cur := r
-	for n > 0 {
-		cur = next(cur)
+	for n != 0 {
+		if n > 0 {
+			cur = cur.next
+			n--
+		} else {
+			cur = cur.prev
+			n++
+		}
 		if cur == r {
 			return nil
 		}
-		n--
 	}
 	return cur
 }
